@@ -8,6 +8,8 @@ MODULES = [
     "specs.xpath",
     "specs.typed",
     "specs.row",
+    "specs.toc",
+    "specs.attrs",
     "specs.b_text",
     "specs.b_package",
     "specs.b_values",
